@@ -1,5 +1,7 @@
 package main
 
+import "strings"
+
 const c12SpecHarness = `//go:build verif
 
 package specification
@@ -261,7 +263,12 @@ func init() {
 			if err := c.repoHarness("specification", "zz_verif_c12.go", c12SpecHarness); err != nil {
 				return nil, err
 			}
-			if err := c.repoHarness(".", "zz_verif_c12.go", c12RootHarness); err != nil {
+			root := c12RootHarness
+			if c.Tier == "thorough" {
+				// two designated ranges at once; constructor harnesses with four-entry maps are below
+				root = strings.ReplaceAll(root, "vrt.PermuteOneMap(true)", "vrt.PermuteSomeMaps(2)")
+			}
+			if err := c.repoHarness(".", "zz_verif_c12.go", root); err != nil {
 				return nil, err
 			}
 			a := repoRunSpec(c, "specification", "VerifC12")
